@@ -49,8 +49,8 @@ ASSUMPTIONS = ['thresholds are kept at least 1e-6 (relative) away from every bes
                'the history clause is also a theorem about a model of the two output paths (C18_history: both writers truncate '
                'on open), tied to the code by these call histories']
 EXHAUSTIVE = {'quick': False, 'thorough': True}
-N = {'quick': 260, 'thorough': 2500}
-N_FITTED = {'quick': 16, 'thorough': 250}
+N = {'quick': 260, 'thorough': 25000}
+N_FITTED = {'quick': 16, 'thorough': 1000}
 NUMTYPES = ['float', 'float', 'int', 'np.float64', 'np.int64']
 META = ('/models/dir', ['F0', 'F1'], None)
 # how the two output files are named: both automatic (<input>_good / <input>_bad), both explicit, or one of each
